@@ -746,6 +746,33 @@ def bridged_over_origin_universe(rng) -> dict:
     return {"L": length, "circ": True, "genes": genes, "areas": areas}
 
 
+def whole_ring_universe(rng) -> dict:
+    """ a ring with a protocluster whose neighbourhood reaches all the way round: its extent (and so its candidate and region)
+        covers every base of the record, starting and ending at a seam that is not the origin (`[s:L) + [0:s)`, start == end) """
+    length = rng.choice([9, 10, 12, 14])
+    seam = rng.randrange(1, length)
+    extent = {"parts": [[seam, length], [0, seam]], "strand": 1}
+    # the core keeps clear of the seam and of the origin
+    free = [pos for pos in range(length) if pos not in (seam - 1, seam) and pos not in (length - 1,)]
+    core_start = rng.choice(free)
+    areas = [{"kind": "proto", "core": {"parts": [[core_start, core_start + 1]], "strand": 1}, "extent": extent,
+              "product": "a", "pay": rng.choice([0, 0, 1, 2])}]
+    if rng.random() < 0.5:
+        start = rng.choice([pos for pos in range(length - 1) if pos + 2 <= length and seam not in (pos + 1,)])
+        ext = {"parts": [[start, start + 2]], "strand": 1}
+        areas.append({"kind": "sub", "core": ext, "extent": ext, "product": "sub", "pay": rng.choice([0, 1])})
+    genes = [{"loc": {"parts": [[core_start, core_start + 1]], "strand": rng.choice([1, -1])}, "core_for": ["a"], "pay": rng.choice([0, 1, 3])}]
+    for _ in range(rng.randrange(1, 4)):
+        pos = rng.randrange(0, length)
+        loc = {"parts": [[pos, pos + 1]], "strand": rng.choice([1, -1])}
+        if any(g["loc"]["parts"] == loc["parts"] for g in genes):
+            continue
+        genes.append({"loc": loc, "core_for": [], "pay": rng.choice([0, 1, 2, 3])})
+    if seam not in (1,) and rng.random() < 0.4 and not any(g["loc"]["parts"][0][0] in (0, length - 1) for g in genes):
+        genes.append({"loc": {"parts": [[length - 1, length], [0, 1]], "strand": 1}, "core_for": [], "pay": 0})
+    return {"L": length, "circ": True, "genes": genes, "areas": areas}
+
+
 def pipeline_history(rng, uni: dict) -> list:
     """ the order of a real run: genes, protoclusters and subregions in any order, then candidates, then regions;
         sometimes a late gene """
